@@ -171,6 +171,65 @@ def pfxApply (pfx : List (Nat × List Nat)) (x : Nat) (reset : Bool) (adds rems 
   let cur := rems.foldl (fun s a => s.filter (· ≠ a)) cur
   (pset pfx x cur, reset || !adds.isEmpty || !rems.isEmpty)
 
+/-! ### the router as a whole: events, tables, when `fibUpdate` is started -/
+
+/-- a router-level event -/
+inductive RouterEvent where
+  /-- a sync Interest of neighbour `w` arrives on `face` (advertSyncOnInterest → Add / RecvPing) -/
+  | ping (w face : Nat) (active : Bool)
+  /-- the advertisement of neighbour `w` is processed (advertDataHandler → ribUpdate); ignored without
+      neighbour state (also when the neighbour died in between: `ns.Advert` is nil) -/
+  | adv (w : Nat) (entries : List C18.AdvEntry)
+  /-- checkDeadNeighbors finds `w` dead -/
+  | dead (w : Nat)
+  /-- a prefix op list of exit router `x` is applied (processPrefixData → Apply) -/
+  | papply (x : Nat) (reset : Bool) (adds rems : List Nat)
+
+/-- the tables after a router-level event, and whether the code starts `fibUpdate`:
+    advertSyncOnInterest (`fibDirty`), ribUpdate / checkDeadNeighbors (`dirty`), processPrefixData (`Apply`) -/
+def Tables.stepDirty (t : Tables) : RouterEvent → Tables × Bool
+  | .ping w face active =>
+    ({ t with nbrs := (recvPing t.nbrs w face active).1 }, (recvPing t.nbrs w face active).2)
+  | .adv w entries =>
+    match pget t.nbrs w with
+    | some _ => ({ t with rib := (C18.ribUpdate t.self t.rib w entries).1 }, (C18.ribUpdate t.self t.rib w entries).2)
+    | none => (t, false)
+  | .dead w =>
+    match pget t.nbrs w with
+    | some _ => ({ t with rib := (C18.ribDead t.rib w).1, nbrs := perase t.nbrs w }, (C18.ribDead t.rib w).2)
+    | none => (t, false)
+  | .papply x reset adds rems =>
+    ({ t with pfx := (pfxApply t.pfx x reset adds rems).1 }, (pfxApply t.pfx x reset adds rems).2)
+
+def Tables.step (t : Tables) (ev : RouterEvent) : Tables := (t.stepDirty ev).1
+
+/-- `NewRouter` + `Router.Start` -/
+def Tables.start (self : Nat) : Tables :=
+  { self := self, rib := (C18.Router.start self).rib, nbrs := [], pfx := [] }
+
+/-- tables, installer state and the forwarder's route table (replay of every emitted command) -/
+structure RState where
+  t : Tables
+  fib : Fib
+  routes : Spec.Routes
+
+def RState.start (self : Nat) : RState := { t := Tables.start self, fib := Fib.empty, routes := [] }
+
+/-- one router-level event: the tables change and `fibUpdate` runs iff the code's dirty result is true;
+    also returns the commands emitted -/
+def RState.stepCmds (prefixOf : Nat → Nat) (s : RState) (ev : RouterEvent) : RState × List Cmd :=
+  if (s.t.stepDirty ev).2 then
+    let r := fibUpdate prefixOf (s.t.step ev) s.fib
+    ({ t := s.t.step ev, fib := r.1, routes := Spec.replay s.routes r.2 }, r.2)
+  else ({ s with t := s.t.step ev }, [])
+
+def RState.step (prefixOf : Nat → Nat) (s : RState) (ev : RouterEvent) : RState := (s.stepCmds prefixOf ev).1
+
+/-- an explicit `fibUpdate` -/
+def RState.fibUpdateCmds (prefixOf : Nat → Nat) (s : RState) : RState × List Cmd :=
+  let r := fibUpdate prefixOf s.t s.fib
+  ({ s with fib := r.1, routes := Spec.replay s.routes r.2 }, r.2)
+
 /-! ## (B) prefix operation log -/
 
 /-- a published PrefixOpList of the publisher -/
